@@ -138,6 +138,14 @@ def bundled_case(example: str, rng, backends=None) -> dict:
     case["ks"] = [chem.distinct_alphas(rng, len(net["reactions"])) for _ in range(2)]
     case["nsystem"], case["block"] = 3, 2
     case["data"] = {"Tgas": 300.0}
+    if getattr(b["module"], "grain_model", ""):
+        case["rates_depend_on_y"] = True
+    om = dict(getattr(b["module"], "ode_modifier", {}) or {})
+    if om:
+        # factor values are derived quantities: resolved at the data point by structural.resolve_deferred_factors
+        case["ode_modifier"] = {sn: {"factors": [[f, None] for f in m["factors"]], "reactants": [list(d) for d in m["reactants"]]} for sn, m in om.items()}
+        case["deferred_factors"] = True
+        case["data"] = {"Tgas": 20.0, "Av": 1.5, "G0": 0.75, "nH": 2.0e3}
     if backends:
         case["backends"] = backends
     return case
@@ -190,6 +198,7 @@ def gen_cases(tier: str) -> list[dict]:
     cases.append(bundled_case("primordial", r))
     if tier == "thorough":
         cases.append(bundled_case("deuterium", r, backends=["dense", "sparse"]))
+        cases.append(bundled_case("cloud", r, backends=["dense", "sparse", "odeint"]))
     return cases
 
 
